@@ -150,12 +150,18 @@ def check_config(ctx, spec, rsel, label):
         if label.startswith("loop") or label.startswith("nested-loop"):
             for k in provided:
                 provided[k] = 0 if not k.startswith("messages") else []
-        for runner in ("sync", "async"):
-            # with several listed entry points the caller names the one it chose
-            ekw = {"entrypoint": ename} if len(entry) > 1 else {}
+        # with several listed entry points the caller names the one it chose; when the values supplied fit no entry
+        # point with OTHER parameters (interchangeable entry points: two readers of one cycle value) the choice needs
+        # no name and the call is also made without one
+        satisfied = [(n_, ps_) for n_, ps_ in entry.items() if set(ps_) <= set(provided)]
+        implicit_ok = len(entry) > 1 and ename is not None and all(tuple(ps_) == tuple(eps) for _, ps_ in satisfied)
+        for runner, named in [(r_, True) for r_ in ("sync", "async")] + ([(r_, False) for r_ in ("sync", "async")] if implicit_ok else []):
+            ekw = {"entrypoint": ename} if len(entry) > 1 and named else {}
+            if not named:
+                ctx.obs["implicit_entry_runs"] += 1
             o = core.execute(built, provided, runner, processors=[Rec("p")], max_iterations=200, **ekw, **kw)
             ctx.obs["sufficiency_runs"] += 1
-            c2 = {**case, "provided": provided, "runner": runner, "entry_point": ename}
+            c2 = {**case, "provided": provided, "runner": runner, "entry_point": ename, "entry_point_named": named}
             err = o.exc if o.exc is not None else o.error
             if isinstance(err, MissingInputError) or (isinstance(err, ValueError) and ("entry" in str(err).lower() or "internal override" in str(err))):
                 # mechanism: the top-level call was accepted and a *nested* run rejected its inputs
@@ -173,7 +179,7 @@ def check_config(ctx, spec, rsel, label):
             if err is not None and not label.startswith("loop"):
                 ctx.violation("C08:sufficient-failed:" + type(err).__name__, f"{runner}: contract supplied exactly, run failed with {err!r}", c2)
                 continue
-            if err is None and sel_names and gate_free(spec) and not spec.get("entry") and o.status == "completed":
+            if err is None and sel_names and (gate_free(spec) or spec.get("expect_selected")) and not spec.get("entry") and o.status == "completed":
                 missing = [s for s in sel_names if s not in (o.values or {})]
                 if missing:
                     ctx.violation("C08:selected-output-missing" + (":runtime-select-vs-graph-select-bound-scope" if scope_mismatch_mechanism(spec, rsel) else ""), f"{runner}: contract supplied exactly, selected outputs {missing} not produced", c2)
@@ -356,6 +362,23 @@ def directed_cases():
         {"k": "route", "name": "gate", "params": [{"n": "total"}], "targets": ["inc", "END"], "cond": ["ge", "total", 6], "then": "END", "else": "inc"},
     ]
     out.append(("directed:two-data-cycles-coupled-by-a-gate", {"name": "twocyc", "nodes": two, "bind": {}, "int_inputs": True}, None))
+    # exclusive branches that write ONE name; the branch listed second is a CHAIN whose later step has an input of its
+    # own; the selected output is computed downstream of the shared name. Whichever way the (constant) gate routes,
+    # the narrowed contract must be enough to obtain the selected output, and each of its names must be necessary
+    for routes_to_chain in (True, False):
+        for kind in ("ifelse", "route"):
+            for chain_first in (False, True):
+                if kind == "ifelse":
+                    gate = {"k": "ifelse", "name": "is_retail", "params": [{"n": "qty"}], "key": "qty", "t": "list_price", "f": "lookup", "table": [not routes_to_chain], "open": False}
+                else:
+                    gate = {"k": "route", "name": "is_retail", "params": [{"n": "qty"}], "key": "qty", "targets": ["list_price", "lookup"], "table": ["lookup" if routes_to_chain else "list_price"], "open": False}
+                direct = {"k": "fn", "name": "list_price", "params": [{"n": "qty"}], "outs": ["price"]}
+                chain = [{"k": "fn", "name": "lookup", "params": [{"n": "qty"}], "outs": ["base"]}, {"k": "fn", "name": "discount", "params": [{"n": "base"}, {"n": "coupon"}], "outs": ["price"]}]
+                nodes = [{"k": "fn", "name": "parse", "params": [{"n": "order"}], "outs": ["qty"]}, gate] + (chain + [direct] if chain_first else [direct] + chain)
+                nodes += [{"k": "fn", "name": "bill", "params": [{"n": "price"}], "outs": ["invoice"]}, {"k": "fn", "name": "shipping", "params": [{"n": "address"}], "outs": ["label"]}]
+                lab = f"directed:chain-branch-behind-shared-name:{kind}:{'chain' if routes_to_chain else 'direct'}-taken:{'chain' if chain_first else 'direct'}-listed-first"
+                out.append((lab + ":graph-select", {"name": "shop", "nodes": copy.deepcopy(nodes), "bind": {}, "select": ["invoice"], "expect_selected": True}, None))
+                out.append((lab + ":runtime-select", {"name": "shop", "nodes": copy.deepcopy(nodes), "bind": {}, "expect_selected": True}, ["invoice"]))
     out.append(("directed:two-data-cycles-coupled-by-a-gate:reordered", {"name": "twocyc", "nodes": [copy.deepcopy(two[2]), copy.deepcopy(two[1]), copy.deepcopy(two[0])], "bind": {}, "int_inputs": True}, None))
     return out
 
@@ -373,6 +396,15 @@ def run(ctx):
     t = loops.nested_loop(3, 0, 2, "route", 1)
     nt = check_config(ctx, t["spec"], None, "nested-loop(L=2)")
     ctx.case({"directed": "nested-loop-L2"}, bool(nt))
+    # directed: every loop template once (cycles with one, several, and interchangeable entry points)
+    if ctx.shard[0] == 0:
+        for t in loops.systematic_templates(2):
+            if t["ref"].get("mechanism"):
+                continue
+            lbl = "nested-loop" if t["template"].startswith("nested") else "loop:" + t["template"]
+            nt = check_config(ctx, copy.deepcopy(t["spec"]), None, lbl)
+            ctx.obs["systematic_loop_templates"] += 1
+            ctx.case({"directed": lbl}, bool(nt))
     for label, spec, rsel in directed_cases():
         nt = check_config(ctx, spec, rsel, label)
         ctx.case({"directed": label}, bool(nt))
